@@ -92,7 +92,7 @@ InvNames ==
    "C06_CommitWithinLog", "C06_LeaderCommitBacked", "C06_FollowerCommit",
    "C07_DurableMono", "C07_ExposedMono", "C07_VolatileMono", "C07_RestartFromDisk", "C07_NoActBelowStart",
    "C08_Contiguous", "C08_WithinCommit", "C08_StableOnlyAsync", "C08_NotDuringSnap", "C08_SnapshotForward",
-   "C09_NoRollback", "C09_ExactBase", "C09_IgnoreStale", "C09_SnapPrefixCommitted",
+   "C09_NoRollback", "C09_ExactBase", "C09_IgnoreStale", "C09_NoFork", "C09_SnapPrefixCommitted",
    "C10_ConfigIsFold", "C10_OnePending", "C10_NoCampaignUnapplied", "C10_AutoLeave",
    "C11_ReadIndexFresh", "C11_ServedByRealLeader",
    "C14_NoPanic", "C15_Converged",
@@ -133,6 +133,7 @@ Holds(name) ==
     [] name = "C09_NoRollback" -> C09_NoRollback
     [] name = "C09_ExactBase" -> C09_ExactBase
     [] name = "C09_IgnoreStale" -> C09_IgnoreStale
+    [] name = "C09_NoFork" -> C09_NoFork
     [] name = "C09_SnapPrefixCommitted" -> C09_SnapPrefixCommitted
     [] name = "C10_ConfigIsFold" -> C10_ConfigIsFold
     [] name = "C10_OnePending" -> C10_OnePending
